@@ -165,12 +165,30 @@ var nestCmp = []string{"==", "!=", "<", "<=", ">", ">="}
 func NestingPackage(rng *core.Rng, name string, nrandom int) *Package {
 	var b strings.Builder
 	fmt.Fprintf(&b, "package %s\n\ntype P struct {\n\tf uint64\n}\n\nfunc h(x uint64, y uint64) uint64 {\n\treturn x ^ y\n}\n\n", name)
+	// callee forms whose printed call is assembled in different parts of the translator: a method, and a
+	// function taking an interface (the struct argument is wrapped in a conversion, the remaining arguments follow)
+	b.WriteString("type Sq struct {\n\tn uint64\n}\n\ntype Shape interface {\n\tarea() uint64\n}\n\nfunc (q Sq) area() uint64 {\n\treturn q.n * q.n\n}\n\n")
+	b.WriteString("func scaled(sh Shape, k uint64, j uint64) uint64 {\n\treturn sh.area()*k + j\n}\n\nfunc measure(sh Shape) uint64 {\n\treturn sh.area()\n}\n\n")
+	b.WriteString("func (p *P) mix(x uint64, y uint64) uint64 {\n\treturn p.f + x*3 + y\n}\n\n")
 	n := 0
 	emit := func(ret, expr string) {
-		fmt.Fprintf(&b, "func e%d(a uint64, b uint64, c uint64, p *P, s []uint64, w uint32) %s {\n\treturn %s\n}\n\n", n, ret, expr)
+		fmt.Fprintf(&b, "func e%d(a uint64, b uint64, c uint64, p *P, s []uint64, w uint32, q Sq) %s {\n\treturn %s\n}\n\n", n, ret, expr)
 		n++
 	}
-	operands := []string{"a", "b", "c", "p.f", "s[1]", "h(a, b)", "uint64(w)", "(^c)", "uint64(len(s))", "7"}
+	operands := []string{"a", "b", "c", "p.f", "s[1]", "h(a, b)", "uint64(w)", "(^c)", "uint64(len(s))", "7", "p.mix(a, b)", "s[(a+b)%4]"}
+	// compound arguments at every argument position of every callee form
+	compound := []string{"a + b", "h(a, c)", "b * c", "uint64(w) - a", "p.f ^ 3", "s[b%4] + 1", "p.mix(c, a+1)", "h(a+1, b*2)"}
+	for i, x := range compound {
+		y := compound[(i+3)%len(compound)]
+		emit("uint64", fmt.Sprintf("scaled(q, %s, %s)", x, y))
+		emit("uint64", fmt.Sprintf("scaled(q, %s, c)", x))
+		emit("uint64", fmt.Sprintf("scaled(q, c, %s)", x))
+		emit("uint64", fmt.Sprintf("p.mix(%s, %s)", x, y))
+		emit("uint64", fmt.Sprintf("h(%s, %s)", x, y))
+		emit("uint64", fmt.Sprintf("s[(%s)%%4]", x))
+		emit("uint64", fmt.Sprintf("scaled(q, %s, %s) + h(%s, b)", x, y, y))
+		emit("uint64", fmt.Sprintf("measure(q) * (%s)", x))
+	}
 	safe := func(op, r string) string {
 		switch op {
 		case "/", "%":
@@ -230,3 +248,95 @@ func NamePackage(pkg, n string) *Package {
 
 var CoqKeywordNames = []string{"Set", "Prop", "Type", "end", "exists", "fix", "forall", "fun", "in", "let", "match", "then", "with", "as", "at", "using", "where"}
 var LibraryNames = []string{"Skip", "Continue", "Break", "Fst", "Snd", "ref", "ref_to", "zero_val", "NewSlice", "SliceGet", "SliceSet", "ForSlice", "MapGet", "Panic", "Fork", "uint64T", "slice", "lock", "disk", "ptrT", "to_u64", "Var", "expr", "val", "ty"}
+
+// ---------------------------------------------------------------- payload kinds x syntactic contexts
+
+// ContextKinds are the ways a payload's text reaches the printer from inside a function body.
+var ContextKinds = []string{"strlit", "logprintf", "logprintln", "bodycomment", "panicmsg", "callarg", "structfield", "compare", "concat", "return"}
+
+// Contexts are the enclosing constructs the statement carrying the payload sits in; each is printed by a
+// different part of the printer (function literal, loop body, branches, method body, nested blocks).
+var Contexts = []string{"closure", "nestedclosure", "loop", "rangeloop", "ifthen", "ifelse", "method", "block", "closureinloop", "goclosure"}
+
+// HostileContextPackage puts payload p, carried by a statement of the given kind, inside the given context.
+func HostileContextPackage(name, kind, context string, p Payload) (*Package, bool) {
+	lit := p.lit()
+	ct, cok := commentText(p.Text)
+	var body string // statements over `s` (var string), `a` (uint64)
+	switch kind {
+	case "strlit":
+		body = "s = " + lit
+	case "logprintf":
+		body = "log.Printf(" + lit + ", a)\ns = \"logged\""
+	case "logprintln":
+		body = "log.Println(" + lit + ", a)\ns = \"logged\""
+	case "bodycomment":
+		if !cok {
+			return nil, false
+		}
+		body = "// inside " + ct + "\ns = \"commented\""
+	case "panicmsg":
+		body = "if a == 12345 {\n\tpanic(" + lit + ")\n}\ns = \"checked\""
+	case "callarg":
+		body = "s = pick(" + lit + ", a+1)"
+	case "structfield":
+		body = "t2 := &T{s: " + lit + ", n: a}\ns = t2.s"
+	case "compare":
+		body = "if s != " + lit + " {\n\ts = \"ne\"\n}"
+	case "concat":
+		body = "s = s + " + lit + " + \"!\""
+	case "return":
+		body = "s = give(a)"
+	default:
+		return nil, false
+	}
+	ind := func(code string, n int) string {
+		pad := strings.Repeat("\t", n)
+		return pad + strings.ReplaceAll(code, "\n", "\n"+pad)
+	}
+	var pre, target, method string
+	method = "func (t *T) m(a uint64) string {\n\treturn t.s\n}\n\n"
+	give := "func give(a uint64) string {\n\treturn \"given\"\n}\n\n"
+	if kind == "return" {
+		give = "func give(a uint64) string {\n\tif a == 12345 {\n\t\treturn \"other\"\n\t}\n\treturn " + lit + "\n}\n\n"
+	}
+	switch context {
+	case "closure":
+		target = "\tf := func(v uint64) {\n" + ind(body, 2) + "\n\t}\n\tf(a)\n"
+	case "nestedclosure":
+		target = "\tf := func(v uint64) {\n\t\tg := func() {\n" + ind(body, 3) + "\n\t\t}\n\t\tg()\n\t}\n\tf(a)\n"
+	case "loop":
+		target = "\tfor i := uint64(0); i < 2; i++ {\n" + ind(body, 2) + "\n\t}\n"
+	case "rangeloop":
+		target = "\tsl := make([]uint64, 2)\n\tfor _, v := range sl {\n\t\tsl[0] = v\n" + ind(body, 2) + "\n\t}\n"
+	case "ifthen":
+		target = "\tif a < 100 {\n" + ind(body, 2) + "\n\t} else {\n\t\ts = \"else\"\n\t}\n"
+	case "ifelse":
+		target = "\tif a > 100 {\n\t\ts = \"then\"\n\t} else {\n" + ind(body, 2) + "\n\t}\n"
+	case "block":
+		target = "\t{\n" + ind(body, 2) + "\n\t}\n"
+	case "closureinloop":
+		target = "\tfor i := uint64(0); i < 2; i++ {\n\t\tf := func() {\n" + ind(body, 3) + "\n\t\t}\n\t\tf()\n\t}\n"
+	case "goclosure":
+		pre = "\twg := new(sync.WaitGroup)\n\twg.Add(1)\n"
+		target = "\tgo func() {\n" + ind(body, 2) + "\n\t\twg.Done()\n\t}()\n\twg.Wait()\n"
+	case "method":
+		method = "func (t *T) m(a uint64) string {\n\tvar s string = t.s\n" + ind(body, 1) + "\n\treturn s\n}\n\n"
+		target = "\tt := &T{s: \"m\", n: a}\n\ts = t.m(a)\n"
+	default:
+		return nil, false
+	}
+	var b strings.Builder
+	fmt.Fprintf(&b, "package %s\n\nimport (\n\t\"log\"\n\t\"sync\"\n)\n\n", name)
+	b.WriteString("type T struct {\n\ts string\n\tn uint64\n}\n\n")
+	b.WriteString("func keepSync() *sync.Mutex {\n\treturn new(sync.Mutex)\n}\n\nfunc keepLog() {\n\tlog.Println(\"k\")\n}\n\n")
+	b.WriteString("func pick(s string, n uint64) string {\n\treturn s\n}\n\n")
+	b.WriteString(give)
+	b.WriteString(method)
+	b.WriteString("func before(a uint64) uint64 {\n\treturn a + 1\n}\n\n")
+	fmt.Fprintf(&b, "func target(a uint64) (string, uint64) {\n\tvar s string = \"plain\"\n%s%s\treturn s, uint64(len(s)) + before(a)\n}\n\n", pre, target)
+	b.WriteString("func after(t *T) uint64 {\n\treturn t.n + uint64(len(t.s))\n}\n\n")
+	b.WriteString("func case_target() (string, uint64) {\n\treturn target(1)\n}\n\n")
+	b.WriteString("func case_after() uint64 {\n\treturn after(&T{s: \"ab\", n: 2})\n}\n")
+	return &Package{Name: name, Source: b.String(), Cases: []string{"case_target", "case_after", ""}, Features: map[string]int{"hostile-" + kind + "-in-" + context + "-" + p.ID: 1}}, true
+}
